@@ -1,0 +1,8 @@
+//go:build verif
+
+package avltree
+
+// VerifBalance returns the node's balance factor (read-only access for the verification harness).
+func (n *Node[K, V]) VerifBalance() int {
+	return int(n.b)
+}
